@@ -1075,6 +1075,12 @@ func (p *parser) parseExprWrap(expr any) (any, bool) {
 	// {{ end }} ==template==
 		res, ok := p.getMemoized(expr)
 		if ok {
+			// a cache hit is charged to the expression budget as well, otherwise a repetition
+			// over an empty match loops on cache hits forever despite MaxExpressions
+			p.ExprCnt++
+			if p.ExprCnt > p.maxExprCnt {
+				panic(errMaxExprCnt)
+			}
 			// labels bound in the current scope by the cached evaluation are bound again
 			for k, v := range p.memoLabels[memoKey{p.pt.offset, expr}] {
 				p.vstack[len(p.vstack)-1][k] = v
